@@ -10,3 +10,4 @@ open Just.Props.C09
 #print axioms working_directory_flag_root_only
 #print axioms directory_functions_constant
 #print axioms source_directory_last
+#print axioms search_clean_normalises
